@@ -11,13 +11,16 @@ import (
 )
 
 type SpecEnv struct {
-	st    *State
-	heap  map[string]string // nil = st.heap
-	old   map[string]string // heap for old(); nil = entry heap of st
-	vars  map[string]Val
-	addr  map[string]Val // variables known by address (captured / address-taken locals)
-	pkg   *types.Package
-	depth int
+	st        *State
+	heap      map[string]string // nil = st.heap
+	old       map[string]string // heap for old(); nil = entry heap of st
+	vars      map[string]Val
+	addr      map[string]Val // variables known by address (captured / address-taken locals)
+	pkg       *types.Package
+	depth     int
+	head      map[string]Val // values of the loop-carried variables at the loop head (step clauses)
+	locals    map[string]Val // named locals at a return (ensures_local clauses)
+	callFresh *[]string      // non-nil while a callee's ensures are assumed at a call site: objects it declares fresh
 }
 
 type specErr struct{ msg string }
@@ -744,6 +747,58 @@ func (ev *SpecEnv) call(n *Node) Val {
 	switch name {
 	case "old":
 		return ev.withHeap(ev.oldHeap()).eval(n.Args[0])
+	case "called":
+		// called(f): the contracted function f was called on this path (a static fact of the path)
+		if len(n.Args) != 1 || n.Args[0].Kind != "ident" {
+			specFail("called(f) takes a function name")
+		}
+		if ev.locals == nil {
+			specFail("called() is only meaningful in an ensures_local clause")
+		}
+		if _, ok := ev.st.callRets[n.Args[0].Name]; ok {
+			return Val{T: "true", S: sortBool, Ty: tb}
+		}
+		return Val{T: "false", S: sortBool, Ty: tb}
+	case "returned":
+		// returned(f, i): result number i of the last call to the contracted function f on this path
+		if len(n.Args) != 2 || n.Args[0].Kind != "ident" {
+			specFail("returned(f, i) takes a function name and a result index")
+		}
+		if ev.locals == nil {
+			specFail("returned() is only meaningful in an ensures_local clause")
+		}
+		r, ok := ev.st.callRets[n.Args[0].Name]
+		if !ok {
+			specFail("returned(%s, _): no call to %s on this path (guard the clause: it is skipped where the call did not happen)", n.Args[0].Name, n.Args[0].Name)
+		}
+		idx := ev.eval(n.Args[1])
+		if idx.K == nil {
+			specFail("returned: result index must be a constant")
+		}
+		i := idx.K.Int64()
+		if r.Tup == nil {
+			if i != 0 {
+				specFail("returned: %s has one result", n.Args[0].Name)
+			}
+			return r
+		}
+		if int(i) >= len(r.Tup) {
+			specFail("returned: result index out of range")
+		}
+		return r.Tup[i]
+	case "at_head":
+		// at_head(x): the value the loop-carried variable x had when this iteration started
+		if len(n.Args) != 1 || n.Args[0].Kind != "ident" {
+			specFail("at_head takes one variable name")
+		}
+		if ev.head == nil {
+			specFail("at_head is only meaningful in a step clause")
+		}
+		v, ok := ev.head[n.Args[0].Name]
+		if !ok {
+			specFail("at_head(%s): not a loop-carried variable of this loop", n.Args[0].Name)
+		}
+		return v
 	case "len", "cap":
 		x := ev.eval(n.Args[0])
 		ti := types.Typ[types.Int]
@@ -786,7 +841,17 @@ func (ev *SpecEnv) call(n *Node) Val {
 		if x.S == sortSl {
 			t = slArr(x.T)
 		}
-		return Val{T: smtNot(sx("alive0", t)), S: sortBool, Ty: tb}
+		// allocated during the call: not allocated before it, and a real object.  Where a callee's
+		// postcondition is assumed at a call site this also means: none of the objects the caller
+		// allocated earlier on this path; the object then joins the caller's allocation list.
+		ds := []string{smtNot(sx("alive0", t)), smtNot(sx("=", t, "nil")), smtNot(sx("=", t, "nilarr")), smtNot(sx("=", t, "textref"))}
+		if ev.callFresh != nil {
+			for _, f := range ev.st.fresh {
+				ds = append(ds, smtNot(sx("=", t, f)))
+			}
+			*ev.callFresh = append(*ev.callFresh, t)
+		}
+		return Val{T: smtAnd(ds...), S: sortBool, Ty: tb}
 	case "alive":
 		// allocated at this point: before the entry of the current function, or on this path
 		x := ev.eval(n.Args[0])
@@ -884,6 +949,25 @@ func (ev *SpecEnv) call(n *Node) Val {
 		rs := c.sortFor(sig.Results().At(0).Type())
 		fn := c.declFun("apply!"+sigID(sig), append([]string{sortFunc}, sortsOf(as)...), rs)
 		return Val{T: sx(fn, append([]string{f.T}, termsOf(as)...)...), S: rs, Ty: sig.Results().At(0).Type()}
+	case "visited", "iterating":
+		// visited(k): the key k of the map being ranged over has been visited by the (innermost) range loop
+		// iterating(k): k was present in that map when the loop was reached
+		it := ev.st.iters[ev.st.lastIter]
+		if it == nil {
+			specFail("%s(): no map range loop in this function", name)
+		}
+		k := ev.coerce(ev.eval(n.Args[0]), it.KS, it.KT)
+		if name == "iterating" {
+			return Val{T: sx("select", it.Pres, k.T), S: sortBool, Ty: tb}
+		}
+		return Val{T: sx("select", ev.hget(it.Heap), k.T), S: sortBool, Ty: tb}
+	case "iter_value":
+		it := ev.st.iters[ev.st.lastIter]
+		if it == nil {
+			specFail("iter_value(): no map range loop in this function")
+		}
+		k := ev.coerce(ev.eval(n.Args[0]), it.KS, it.KT)
+		return Val{T: sx("select", it.Vals, k.T), S: it.VS, Ty: it.VT}
 	case "elem_ref":
 		// elem_ref(s, i): the object identity (&s[i]) of element i of a slice of structs
 		x := ev.eval(n.Args[0])
